@@ -124,7 +124,7 @@ def replay(chk, th, fam, macros, cases, what, layout="lines"):
         if rc != 0:
             begun = [r["begin"] for r in recs if "begin" in r]
             bad = inputs[begun[-1]] if begun else None
-            kind = "timeout" if rc == -9 else "crash"
+            kind = "timeout" if rc in (-9, 75) else "crash"
             chk.violation("%s:abort:%s" % (what, bad and bad["files"]), "apply_macros did not return (%s, exit %s) on %r: %s"
                           % (kind, rc, bad and bad["files"], err[-1500:]), {"input": bad})
         for j in part:
